@@ -11,7 +11,8 @@ import (
 
 // C08 - compression is negotiated so both sides can decode, and is lossless.
 
-var c08Universe = []string{"a", "b", "gzip", "zz"}
+// ("zip" is a substring of "gzip": membership in the advertised list is by token, not by substring)
+var c08Universe = []string{"a", "zip", "gzip", "zz"}
 
 // HarnessC08Negotiate: negotiateCompression against a reference predicate for
 // symbolic registration lists (order, duplicates), sent and accepted names
@@ -37,7 +38,7 @@ func HarnessC08Negotiate() {
 	}
 	check(ro.CommaSeparatedNames() == strings.Join(refNames, ","), "supported algorithms are listed most recently registered first, without duplicates")
 
-	sentChoices := []string{"", "identity", "a", "b", "gzip", "zz"}
+	sentChoices := []string{"", "identity", "a", "zip", "gzip", "zz"}
 	sent := sentChoices[nondetChoice("sent", len(sentChoices))]
 	nacc := nondetChoice("nacc", bound("accepted", 2, 3)+1)
 	seps := []string{",", ", ", " "}
